@@ -24,7 +24,7 @@ def env_closure(mir_path):
             if '(' not in line[m.end():m.end() + 200] and '::<' not in line[m.end():m.end() + 4]: continue
             n += 1
             base = name
-            if base in ALLOWED_ENV or base.startswith(('std::io::Error', 'std::io::error', 'core::fmt', 'std::fmt', 'std::process::exit', 'std::env::Args', 'std::env::args', 'std::env::current_dir', 'std::fs::read_to_string', 'std::io::_print', 'std::io::_eprint')): continue
+            if base in ALLOWED_ENV or base.startswith(('std::io::Error', 'std::io::error', 'core::fmt', 'std::fmt', 'std::process::exit', 'std::env::Args', 'std::env::args', 'std::env::current_dir', 'std::fs::read_to_string', 'std::io::_print', 'std::io::_eprint', 'std::io::Write', 'std::io::stdout', 'std::io::stderr', 'std::io::Stdout', 'std::io::Stderr')): continue      # (io::Write on the standard streams is modelled, `write` with its short-write contract)
             bad[base] = bad.get(base, 0) + 1
     return n, bad
 
